@@ -379,9 +379,17 @@ pub const FLAT_UNITS: &[(&str, &str)] = &[
     ("byte-vectors", "#u8(1) "),
 ];
 
+/// One- and two-byte sigils and openers of token kinds, most of them errors or
+/// incomplete by themselves: a run of 10^6 of them must be refused (or read) in
+/// bounded stack, whatever syntax extension gives them a meaning.
+pub const SIGIL_UNITS: &[&str] = &[
+    "#;", "#;a ", "#|", "#!", "#'", "#`", "#,", "#,@", "#&", "#=", "##", "#:", "#\\", "#%", "#<", "\\", "|", "{", "}", "?", "?\\", "?\\C-", ".", ". ", "@", ":", "::", "-", "+", "1.", "1e", "#x", "#e", "#i", "^", "~", "_", "\"\" ", "#u8", "#u8()",
+];
+
 /// `vcheck child c03-flat <unit> <reps> <shape> <api> <src>`
 pub fn child_flat(args: &[String]) -> i32 {
-    let unit = FLAT_UNITS[args[0].parse::<usize>().unwrap()].1;
+    let ui = args[0].parse::<usize>().unwrap();
+    let unit = if ui >= 1000 { SIGIL_UNITS[ui - 1000] } else { FLAT_UNITS[ui].1 };
     let reps: usize = args[1].parse().unwrap();
     let shape = args[2].clone();
     let api = args[3].clone();
@@ -714,6 +722,42 @@ pub fn sets(ctx: &Ctx) -> Vec<CaseSet> {
         Box::new(move |rep, _rng, case| {
             let kind = (case as usize) % OPENERS.len();
             child_case(rep, kind, case / OPENERS.len() as u64 + kind as u64);
+        }),
+    ));
+    // ---- 10^6 repetitions of sigils that are errors or incomplete today
+    out.push(CaseSet::new(
+        "million-sigils-children",
+        SIGIL_UNITS.len() as u64,
+        Box::new(move |rep, _rng, case| {
+            let name = SIGIL_UNITS[case as usize];
+            let me = std::env::current_exe().unwrap().to_string_lossy().to_string();
+            let mut bins = vec![("mon", me)];
+            if let Ok(d) = std::env::var("VH_DEV_BIN") {
+                if !d.is_empty() {
+                    bins.push(("dev", d));
+                }
+            }
+            let combos = [("top-level", "value", "slice"), ("in-list", "value", "reader"), ("top-level", "datum", "reader"), ("in-list", "value", "str")];
+            let (shape, api, src) = combos[(case as usize) % combos.len()];
+            let reps = if thorough { 1_000_000 } else { 300_000 };
+            for (label, bin) in bins {
+                let args: Vec<String> = vec!["child".into(), "c03-flat".into(), (1000 + case).to_string(), reps.to_string(), shape.into(), api.into(), src.into()];
+                let r = child::run(&bin, &args, Duration::from_secs(600));
+                rep.eval();
+                rep.count("sigil-child:ran");
+                rep.distinct(hash2(hash_bytes(name.as_bytes()), hash2(case, label.len() as u64 + 500)));
+                match &r.exit {
+                    Exit::Code(0) if r.stdout.contains("RESULT items=") => rep.count("sigil-child:completed"),
+                    _ if r.stack_overflow() => rep.violation(
+                        "stack-overflow",
+                        format!("C03:stack-overflow:sigil-run:{}", name.trim()),
+                        format!("{:?} x {} ({}, {} api, {} source, {} build, 2 MiB thread): process died of stack overflow ({:?})", name, reps, shape, api, src, label, r.exit),
+                        json!({"unit": name, "shape": shape, "api": api, "src": src, "build": label, "reps": reps}),
+                    ),
+                    Exit::Timeout => rep.inconclusive(format!("child watchdog fired for sigil run {:?}", name)),
+                    other => rep.inconclusive(format!("sigil child {:?} ended unexpectedly: {:?} {}", name, other, r.stderr_tail)),
+                }
+            }
         }),
     ));
     // ---- 10^6 repetitions of un-nested units (comment lines, blanks, small datums)
